@@ -256,7 +256,7 @@ Section Fixed2.
     Inv (write false s i w p).
   Proof.
     intros I Hn Ho Hp. pose proof (inv_prep s I i w p Hn Hp) as (_ & Hds & Hus & Hpos & Hle & Himp).
-    unfold write, write_gate. cbn [andb]. rewrite orb_false_r. destruct (p_cas p =? d_cas (st s)) eqn:Ecas.
+    unfold write, write_gate, tomb_quirk. cbn [andb]. rewrite orb_false_r. destruct (p_cas p =? d_cas (st s)) eqn:Ecas.
     - apply N.eqb_eq in Ecas. destruct (Himp Ecas) as (Hgt & Hcas & nr & Htree & Hin).
       destruct (w_fail_write (w_op w)).
       + cbn [finish_failed]. apply (fail_case s i w (w_docseq w) (w_unusedseqs w) OFailed [] (last s) I Hn); [reflexivity | left; auto | discriminate].
